@@ -348,8 +348,9 @@ CasesQ ==
        { << "sess", kp, 7, (kp % 2), 0, (kp % 3), 0 >> : kp \in 1..NKP }                      \* every key list, tweaks x,p,x with parity flips
   \cup { << "sess", kp, 1, ((kp + 1) % 2), 0, ((kp + 1) % 3), 0 >> : kp \in {1, 4, 10, 13} }  \* untweaked
   \cup { << "sess", 3, tp, (tp % 2), (tp % 2), (tp % 3), IF tp \in {2, 5} THEN 1 ELSE 0 >> : tp \in 1..NTP }   \* every tweak sequence
-  \cup { << "sess", 8, tp, ((tp + 1) % 2), ((tp + 1) % 2), (tp % 3), 0 >> : tp \in {4, 5, 6, 8, 9} }
-  \cup { << "sess", 3, tp, nk, ad, 0, IF tp = 1 /\ ad = 0 THEN 1 ELSE 0 >> : tp \in {1, 2}, nk \in {2, 3, 4}, ad \in {0, 1} }  \* aggregate nonce components at infinity
+  \cup { << "sess", 8, tp, ((tp + 1) % 2), ((tp + 1) % 2), (tp % 3), 0 >> : tp \in {4, 8, 9} }
+  \cup { << "sess", 3, 1, nk, ad, 0, IF ad = 0 THEN 1 ELSE 0 >> : nk \in {2, 3, 4}, ad \in {0, 1} }    \* aggregate nonce components at infinity
+  \cup { << "sess", 3, 2, 4, 0, 0, 0 >>, << "sess", 3, 2, 2, 1, 0, 0 >> }
   \cup { << "sess", 7, 2, nk, (nk % 2), 0, 0 >> : nk \in {2, 3, 4} }
   \cup { << "sess", 3, 1, 0, 2, 0, 0 >>, << "sess", 3, 2, 1, 2, 0, 0 >> }                     \* the adaptor cancels the first aggregate nonce
   \cup { << "sess", 5, 4, 5, 1, 1, 1 >> }
@@ -411,9 +412,9 @@ NegK(k) == IF ((NN - k) % NN) = 0 THEN 1 ELSE ((NN - k) % NN)
 TinyCases ==
        { << "tk", d1, d2, nv, tw >> : d1 \in Res, d2 \in Res \cup {0}, nv \in IF Thorough THEN 1..2 ELSE {1}, tw \in 0..2 }
   \cup { << "tn", kv, a1, a2, m >> : kv \in IF Thorough THEN 1..2 ELSE {1}, a1 \in Res, a2 \in Res, m \in 1..4 }
-  \cup { << "tn", 2, a1, a2, 3 >> : a1 \in Res, a2 \in Res }
+  \cup { << "tn", 2, a1, a2, 3 >> : a1 \in Res, a2 \in {1, NN - 1} }
   \cup { << "tt", x1, t1, x2, t2 >> : x1 \in 0..1, t1 \in Res \cup {0, NN, NN + 1}, x2 \in 0..1,
-                                       t2 \in IF Thorough THEN Res \cup {0, NN, NN + 1} ELSE {0, 1, NN - 2, NN} }
+                                       t2 \in IF Thorough THEN Res \cup {0, NN, NN + 1} ELSE {0, NN - 2, NN} }
   \cup { << "tt1", x1, t1 >> : x1 \in 0..1, t1 \in Res \cup {0, NN, NN + 1} }
   \cup { << "ta", t, a1, bm >> : t \in Res, a1 \in Res, bm \in IF Thorough THEN 1..3 ELSE 1..2 }
   \cup { << "t3", d1, d2, d3 >> : d1 \in IF Thorough THEN {1, 4} ELSE {4}, d2 \in Res, d3 \in Res }
